@@ -321,7 +321,12 @@ func (p goTypes) cvtStruct(typ *types.Struct) (raw *types.Struct, cvt bool) {
 		flds[i] = f
 	}
 	if needcvt {
-		return types.NewStruct(flds, nil), true
+		// Keep the tags: they are part of the type's identity and reflect reads them.
+		tags := make([]string, n)
+		for i := 0; i < n; i++ {
+			tags[i] = typ.Tag(i)
+		}
+		return types.NewStruct(flds, tags), true
 	}
 	return typ, false
 }
